@@ -5,7 +5,7 @@ const {Parser} = require("/verif/js/binary_parser_shim.js");
 
 
 function newParser() {
-    return new Parser().endianess("little");
+    return new Parser().endianess("big");
 }
 
 function componentHeaderParser() {
@@ -27,8 +27,8 @@ function componentHeaderParser() {
         .string("name", {length: "_name"})
         .uint16("_format",)
         .string("format", {length: "_format"})
-        .uint16("_limbs")
         .uint16("_points")
+        .uint16("_limbs")
         .uint16("_colors")
         .array("points", {
             type: strParser,
